@@ -468,4 +468,138 @@ theorem zip_after (k : Nat) (hk : (pre c).length + 1 < k) :
     simp [exec, not_under_tmpdir_dest c h.hne, zipDone, readable]
 end zip
 
+
+/-! ### the `tmpdir=` route -/
+structure WFtmp (c : Cfg) (fs : FS) : Prop where
+  hdir : fs c.dir = some .dir
+  hne : c.t ≠ c.name
+  htmp : fs c.tmpdir = some .dir         -- the caller's directory exists (and may hold anything)
+  hfile : fs c.tmpfile = none            -- the uuid name is fresh
+  hdest : fs c.dest ≠ some .dir
+
+/-- state after open, writes and close on the `tmpdir=` route -/
+def tmpState (c : Cfg) (fs : FS) : FS := upd fs c.tmpfile (some (.file c.newData))
+
+theorem exec_preTmp (c : Cfg) (fs : FS) (h : WFtmp c fs) :
+    exec fs ([⟨.openW c.tmpfile, .enter⟩] ++ writes c c.chunks ++ [closeInstr c]) = (tmpState c fs, none) := by
+  have r2 : runInstr fs ⟨.openW c.tmpfile, .enter⟩ = .ok (upd fs c.tmpfile (some (.file []))) := by
+    simp [runInstr, step, isDir, h.hfile, h.htmp]
+  rw [List.append_assoc, List.singleton_append, exec_cons_ok _ _ _ _ r2]
+  have hw := exec_writes c c.chunks (upd fs c.tmpfile (some (.file []))) [] (by simp)
+  rw [exec_append_ok _ _ _ (by rw [hw]), hw]
+  simp only [List.nil_append, exec, runInstr, step, closeInstr, Cfg.newData, Prod.mk.injEq, and_true]
+  funext q; by_cases hq : q = c.tmpfile <;> simp [upd, hq, tmpState, Cfg.newData]
+
+def tmpCommitted (c : Cfg) (fs : FS) : FS :=
+  upd (upd (tmpState c fs) c.dest (some (.file c.newData))) c.tmpfile none
+
+theorem run_rename_tmp (c : Cfg) (fs : FS) (h : WFtmp c fs) :
+    runInstr (tmpState c fs) ⟨.rename c.tmpfile c.dest, .commitRename⟩ = .ok (tmpCommitted c fs) := by
+  have e1 : tmpState c fs c.tmpfile = some (.file c.newData) := by simp [tmpState]
+  have e2 : tmpState c fs c.dir = some .dir := by simp [tmpState, upd, dir_ne_tmpfile c, h.hdir]
+  have e0 : tmpState c fs c.dest = fs c.dest := by simp [tmpState, upd, (tmpfile_ne_dest c h.hne).symm]
+  have e3 : (tmpState c fs c.dest == some Node.dir) = false := by
+    rw [e0]; simp only [beq_eq_false_iff_ne, ne_eq]; exact h.hdest
+  simp only [runInstr, step, e1, parent_dest, isDir, e3, e2, BEq.rfl, if_true, Bool.false_eq_true, if_false]
+  rfl
+
+theorem exec_programTmp_rmtree (c : Cfg) (fs : FS) (h : WFtmp c fs) :
+    exec fs (programTmp c .rmtreeDir) = ((fun q => if under c.tmpdir q then none else tmpCommitted c fs q), none) := by
+  unfold programTmp
+  rw [List.append_assoc, exec_append_ok _ _ _ (by rw [exec_preTmp c fs h]), exec_preTmp c fs h,
+    List.singleton_append, exec_cons_ok _ _ _ _ (run_rename_tmp c fs h)]
+  have hd : tmpCommitted c fs c.tmpdir = some .dir := by
+    simp [tmpCommitted, tmpState, upd, (tmpfile_ne_tmpdir c).symm, tmpdir_ne_dest c h.hne, h.htmp]
+  rw [exec_cons_ok _ _ _ _ (run_rmtree c _ hd)]; rfl
+
+theorem exec_programTmp_unlink (c : Cfg) (fs : FS) (h : WFtmp c fs) :
+    exec fs (programTmp c .unlinkFile) = (tmpCommitted c fs, none) := by
+  unfold programTmp
+  rw [List.append_assoc, exec_append_ok _ _ _ (by rw [exec_preTmp c fs h]), exec_preTmp c fs h,
+    List.singleton_append, exec_cons_ok _ _ _ _ (run_rename_tmp c fs h)]
+  have : runInstr (tmpCommitted c fs) ⟨.unlink c.tmpfile, .commitUnlink⟩ = .ok (tmpCommitted c fs) := by
+    simp [runInstr, step, tmpCommitted]
+  rw [exec_cons_ok _ _ _ _ this]; rfl
+
+/-! ### faults on a zip-member target, handlers as they are -/
+section zipfault
+variable (c : Cfg) (fs : FS) (h : WF c fs) (m : Nat) (hg : c.guarded = true)
+  (hw : c.withBlock = true) (hb : c.bodyUnlink = false)
+include h hg hw hb
+
+omit m in
+/-- any call before the append raising: archive (whatever the destination is) untouched, no temp left -/
+theorem fault_before_commit (k : Nat) (hk : k < (pre c).length) :
+    faultState c fs k c.dest = fs c.dest ∧ ∀ p, under c.tmpdir p = true → faultState c fs k p = none := by
+  by_cases k0 : k = 0
+  · subst k0
+    simp only [faultState, phaseAt_0, handler, exec, crash_zero, true_and]
+    exact fun p hp => h.hfresh p hp
+  · have hS := crash_tmpdir_pre c fs h k (by omega) (by omega)
+    have hD := crash_before_commit c fs h.hne k (by omega)
+    have hl : handler c (phaseAt c k) = [⟨.rmtree c.tmpdir, .cleanup⟩] ∨
+        handler c (phaseAt c k) = [⟨.close c.tmpfile, .exitClose⟩, ⟨.rmtree c.tmpdir, .cleanup⟩] := by
+      rw [pre_length] at hk
+      by_cases k1 : k = 1
+      · subst k1; simp [phaseAt_1, handler, hg]
+      · by_cases kb : k < c.chunks.length + 2
+        · obtain ⟨j, rfl⟩ : ∃ j, k = j + 2 := ⟨k - 2, by omega⟩
+          rw [phaseAt_body c j (by omega)]; simp [handler, hw, hb]
+        · have kc : k = c.chunks.length + 2 := by omega
+          subst kc; rw [phaseAt_close]; cases c.closeInBody <;> simp [handler, hg, hw, hb]
+    unfold faultState
+    rw [cleanup_result c _ hS _ hl]
+    exact ⟨by simp [not_under_tmpdir_dest c h.hne, hD], fun p hp => by simp [hp]⟩
+
+omit hw hb in
+/-- the open of the archive for append raising: zipfile retries with 'w+b', the write "succeeds" with
+an archive that holds ONLY the new member -/
+theorem fault_at_zipData (hz : c.zipMember = some m) (ms : List (Nat × Data)) (hold : fs c.dest = some (.archive ms false)) :
+    faultState c fs (pre c).length c.dest = some (.archive [(m, c.newData)] false) ∧
+    ∀ p, under c.tmpdir p = true → faultState c fs (pre c).length p = none := by
+  have hph : phaseAt c (pre c).length = .zipData := by
+    rw [pre_length, phaseAt_commit0, post_zip c m hz]; rfl
+  have hcr : crashState c fs (pre c).length = preState c fs c.newData := by
+    rw [crash_after_pre c fs h _ (Nat.le_refl _)]; simp [exec]
+  unfold faultState
+  rw [hph, hcr]
+  simp only [handler, hg, if_true, hz, List.cons_append, List.nil_append]
+  have e0 := preState_dest c fs h c.newData
+  have r1 : runInstr (preState c fs c.newData) ⟨.zipTrunc c.dest, .zipData⟩
+      = .ok (upd (preState c fs c.newData) c.dest (some (.archive [] false))) := by
+    simp [runInstr, step, isDir, e0, hold, preState_dir c fs h]
+  have r2 : runInstr (upd (preState c fs c.newData) c.dest (some (.archive [] false))) ⟨.zipData c.dest m c.tmpfile, .zipData⟩
+      = .ok (upd (preState c fs c.newData) c.dest (some (.archive [(m, c.newData)] true))) := by
+    simp only [runInstr, step, upd_other _ _ _ _ (tmpfile_ne_dest c h.hne), preState_tmpfile, upd_same, List.nil_append]
+    congr 1; funext q; by_cases hq : q = c.dest <;> simp [upd, hq]
+  have r3 : runInstr (upd (preState c fs c.newData) c.dest (some (.archive [(m, c.newData)] true))) ⟨.zipDir c.dest, .zipDir⟩
+      = .ok (upd (preState c fs c.newData) c.dest (some (.archive [(m, c.newData)] false))) := by
+    simp only [runInstr, step, upd_same]
+    congr 1; funext q; by_cases hq : q = c.dest <;> simp [upd, hq]
+  have hd : upd (preState c fs c.newData) c.dest (some (.archive [(m, c.newData)] false)) c.tmpdir = some .dir := by
+    rw [upd_other _ _ _ _ (tmpdir_ne_dest c h.hne), preState_tmpdir]
+  rw [exec_cons_ok _ _ _ _ r1, exec_cons_ok _ _ _ _ r2, exec_cons_ok _ _ _ _ r3, exec_cons_ok _ _ _ _ (run_rmtree c _ hd)]
+  exact ⟨by simp [exec, not_under_tmpdir_dest c h.hne], fun p hp => by simp [exec, hp]⟩
+
+omit hw hb in
+/-- the close of the archive (central directory) raising: the temp dir is removed, the archive stays torn -/
+theorem fault_at_zipDir (hz : c.zipMember = some m) (ms : List (Nat × Data)) (hold : fs c.dest = some (.archive ms false)) :
+    readable (faultState c fs ((pre c).length + 1) c.dest) = none ∧
+    ∀ p, under c.tmpdir p = true → faultState c fs ((pre c).length + 1) p = none := by
+  have hph : phaseAt c ((pre c).length + 1) = .zipDir := by
+    simp [phaseAt, program, post_zip c m hz]
+  have hcr : crashState c fs ((pre c).length + 1) = zipTorn c fs ms m := by
+    rw [crash_after_pre c fs h _ (by omega), post_zip c m hz]
+    simp only [Nat.add_sub_cancel_left, List.take_succ_cons, List.take_zero]
+    rw [exec_cons_ok _ _ _ _ (run_zipData c fs h m ms hold)]; rfl
+  unfold faultState
+  rw [hph, hcr]
+  simp only [handler, hg, if_true]
+  have hd : zipTorn c fs ms m c.tmpdir = some .dir := by
+    simp [zipTorn, upd, tmpdir_ne_dest c h.hne, preState_tmpdir c fs]
+  rw [exec_cons_ok _ _ _ _ (run_rmtree c _ hd)]
+  exact ⟨by simp [exec, not_under_tmpdir_dest c h.hne, zipTorn, readable], fun p hp => by simp [exec, hp]⟩
+
+end zipfault
+
 end CogentModel.AtomicWrite
